@@ -22,18 +22,26 @@ def shapes(tier):
         return [(0, 0), (10, 0), (10, 1), (10, 4), (10, 9), (10, 10), (20, 0), (20, 3), (20, 11)]
     return [(0, 0)] + [(10, m) for m in range(0, 11)] + [(20, m) for m in range(0, 12)]
 
-def step(cap, m, op, vt, tier, fullhash=False, optional=False):
+def bounds_for(cap, m, vt):
+    """per-loop bounds (checked by unwinding assertions): rehash / destructor: inner chain loop m+1, outer bucket loop cap+1"""
+    pfx = 'ht' if vt else 'hi'
+    us = ['%s.0:%d' % (RH[vt], m + 1), '%s.1:%d' % (RH[vt], max(cap, 1) + 1), '%s_dtor.0:%d' % (pfx, m + 1), '%s_dtor.1:%d' % (pfx, max(cap, 1) + 1)]
+    uf = [(r'^h[it]_(begin|it_next|cit_next)$', cap + 2), (r'^(_ZN3frg(?!.*6rehashEv)|h[it]_(?!dtor$))', m + 2), (r'^ir2c_memset$', 21), (r'^(?!.*6rehashEv)(?!h[it]_dtor$)', 21)]
+    return us, uf
+
+def step(cap, m, op, vt, tier, fullhash=False, optional=False, prof=None, timeout=None, mem=None):
     defs = {'CAP': cap, 'M': m, 'OP': op, 'VT': vt}
     if fullhash: defs['FULLHASH'] = 1
-    grow = op in (1, 2, 3)
-    big = grow and m >= 9
-    name = '%s%s.cap%d.m%d%s' % ('trk.' if vt else '', OPS[op], cap, m, '.hash32' if fullhash else '')
-    uf = [(r'6rehashEv', max(cap, 1) + 1), (r'^h[it]_dtor$', max(cap, m) + 1), (r'^(_ZN3frg|h[it]_)', m + 2), (r'^ir2c_memset$', 21), (r'.', 21)]
-    return Q(name, UN[vt], 'c14_step.c', 'harness', defs=defs, unwind_fn=uf, inline_witness=True, witness='all',
-             timeout=1800 if big else 600, mem_gb=8 if big else 4, optional=optional,
-             bounds={'capacity before the operation': cap, 'entries before the operation': m, 'keys': 'arbitrary distinct 64-bit keys', 'values': 'arbitrary 32-bit',
-                     'hash function': 'arbitrary function of the key' + (' (32-bit values)' if fullhash else ' (values < 20: the map only uses hash % capacity, capacity in {10,20})'),
-                     'pre-state': 'ANY map satisfying the representation invariant (solver-chosen chains)', 'Value': 'tracked' if vt else 'int'},
+    if prof is not None: defs['PROF'] = '{' + ','.join(str(b) for b in prof) + '}'
+    name = '%s%s.cap%d.m%d%s%s' % ('trk.' if vt else '', OPS[op], cap, m, '.hash32' if fullhash else '', ('.p' + ''.join('%x' % b for b in prof)) if prof is not None else '')
+    us, uf = bounds_for(cap, m, vt)
+    b = {'capacity before the operation': cap, 'entries before the operation': m, 'keys': 'arbitrary distinct 64-bit keys', 'values': 'arbitrary 32-bit',
+         'hash function': 'arbitrary function of the key' + (' (32-bit values)' if fullhash else ' (values < 20: the map only uses hash % capacity, capacity in {10,20})'),
+         'pre-state': 'ANY map satisfying the representation invariant (solver-chosen chains)', 'Value': 'tracked' if vt else 'int'}
+    if prof is not None:
+        b['pre-state'] = 'bucket (hash % capacity) of the i-th entry in iteration order fixed to %s; hash high part (h or h+10), keys, values, argument key and its hash solver-chosen' % (list(prof),)
+    return Q(name, UN[vt], 'c14_step.c', 'harness', defs=defs, unwindset=us, unwind_fn=uf, inline_witness=True, witness='all',
+             timeout=timeout or 900, mem_gb=mem or 4, optional=optional, bounds=b,
              what='inductive step: ' + WHAT[op] + ' -> invariant, reference association, results, allocator protocol' + (', value lifetimes' if vt else ''))
 
 def applicable(cap, m, op):
@@ -66,7 +74,8 @@ def queries_c16(tier):
         for op in (1, 2, 3, 7, 10):
             if applicable(cap, m, op): qs.append(step(cap, m, op, 1, tier))
     for (k, u) in ([(2, 2), (3, 2)] if tier == 'quick' else [(2, 3), (3, 3), (4, 2)]):
-        qs.append(Q('trk.hist.k%d.u%d' % (k, u), 'c14_trk', 'c14_hist.c', 'harness', defs={'K': k, 'U': u}, unwind_fn=[(r'6rehashEv', 11), (r'^(_ZN3frg|h[it]_)', k + 2), (r'^ir2c_memset$', 21), (r'.', 21)],
+        qs.append(Q('trk.hist.k%d.u%d' % (k, u), 'c14_trk', 'c14_hist.c', 'harness', defs={'K': k, 'U': u}, unwindset=['%s.0:%d' % (RH[1], k + 3), '%s.1:11' % RH[1], 'ht_dtor.0:%d' % (k + 3), 'ht_dtor.1:11'],
+                    unwind_fn=[(r'^(_ZN3frg(?!.*6rehashEv)|h[it]_(?!dtor$))', k + 4), (r'^ir2c_memset$', 21), (r'^(?!.*6rehashEv)(?!h[it]_dtor$)', 21)],
                     inline_witness=True, witness='all', timeout=1800, mem_gb=8, optional=(k >= 4),
                     bounds={'operations': k, 'key universe': u, 'hash function': 'solver-chosen table over the key universe (values < 20)', 'Value': 'tracked', 'allocator': 'tracking allocator, exact-size blocks',
                             'construction': 'default constructor or initializer-list constructor with 2 entries'},
